@@ -169,6 +169,18 @@ def routes(pendulum, z, inst):
             out.append((pname, c))
         elif len(tzref.zone(z).solve(obs.wall_us(f) // US)) == 1:
             out.append((pname + "/DIFFERENT-VALUE", c))     # an unambiguous spelling of this very value came back as another one
+    # a text that carries its own offset denotes that offset's value whatever `tz=` option accompanies it
+    off = z if isinstance(z, int) else (0 if z == "UTC" else None)
+    if off is not None and off % 60 == 0 and abs(off) < 86400:
+        sign = "-" if off < 0 else "+"
+        otxt = "Z" if (off == 0 and inst // US % 2) else "%s%02d:%02d" % (sign, abs(off) // 3600, abs(off) // 60 % 60)
+        text = "%04d-%02d-%02d" % tuple(f[:3]) + tail + otxt
+        for oname, opt in (("parsed-offset+tz-name", "Asia/Tokyo"), ("parsed-offset+tz-object", _tz(pendulum, "America/New_York"))):
+            try:
+                c = pendulum.parse(text, tz=opt)
+            except Exception:  # noqa: BLE001
+                continue
+            out.append((oname if (obs.instant_us(c) == inst and obs.fields(c) == f) else oname + "/DIFFERENT-VALUE", c))
     # the same value carrying a tzinfo that is not a pendulum timezone (raw constructor / fromisoformat / astimezone(<foreign>))
     import zoneinfo
     fz = dt_.timezone(dt_.timedelta(seconds=z)) if isinstance(z, int) else zoneinfo.ZoneInfo(z)
